@@ -262,7 +262,7 @@ def map_type(cpptype, real='double', classes=()):
             return (base + ' *', 'str_out' if base == 'vstr' else 'obj_out')
         if is_ref and is_const:
             return ('const ' + base + ' *', 'str_in' if base == 'vstr' else 'obj_in')
-        raise ExtractError('by-value object parameter %r not supported' % cpptype)
+        return (base, 'obj')   # by value: only legal for data members (struct generation), refused for parameters
     if is_ref and not is_const:
         return (base + ' *', 'ref')
     return (base, 'val')
@@ -298,7 +298,7 @@ def parse_params(text, real='double'):
         if not m:
             raise ExtractError('cannot parse parameter %r' % p)
         typ, name = m.group(1).strip(), m.group(2)
-        if typ == '' or typ in ('const', 'unsigned', 'const unsigned'):
+        if typ == '' or (typ in ('const', 'unsigned', 'const unsigned') and name in ('real', 'int', 'unsigned', 'double', 'bool', 'char', 'T', 'long', 'float')):
             # unnamed parameter ("real", "unsigned")
             typ = (typ + ' ' + name).strip()
             name = 'unnamed%d' % n
@@ -307,6 +307,8 @@ def parse_params(text, real='double'):
             params.append(Param(typ + array, name, default, ctype, 'array', array))
         else:
             ctype, kind = map_type(typ, real)
+            if kind == 'obj':
+                raise ExtractError('by-value object parameter %r not supported' % typ)
             params.append(Param(typ, name, default, ctype, kind))
     return params
 
@@ -906,7 +908,7 @@ class Translator:
                 self.report.hit('R11.member')
                 return 'self->' + w
             return w
-        return re.sub(r'(?<![\w.>])(_[A-Za-z]\w*)\b', sub, body)
+        return re.sub(r'(?<![\w.>])([A-Za-z_]\w*)\b(?!\s*\()', sub, body)
 
     # ---- R5 reference parameters
     def rule_refs(self, body, ref_names):
@@ -937,21 +939,27 @@ class Translator:
             po = m.end() - 1
             pc = match_close(body, po)
             args = [a.strip() for a in split_top(body[po + 1:pc])] if body[po + 1:pc].strip() else []
-            infos = [fi for fi in names[name] if fi.required() <= len(args) <= len(fi.params)]
+            nargs = len(args) - (1 if args and args[0].startswith('VERIF_OBJ(') else 0)
+            infos = [fi for fi in names[name] if fi.required() <= nargs <= len(fi.params)]
             if len(infos) != 1:
                 cn = set(fi.cname for fi in infos)
                 if len(cn) != 1:
                     raise ExtractError('call to %s with %d args: %d matching overloads' % (name, len(args), len(infos)))
             fi = infos[0]
             full = list(args)
-            for p in fi.params[len(args):]:
+            for p in fi.params[nargs:]:
                 d = p.default
                 # defaults are C++ expressions of the callee's class: qualify enumerators
                 full.append(self._default_expr(d, fi))
                 self.report.hit('R6.default_arg')
             out_args = []
             if fi.is_method:
-                out_args.append('self')
+                if full and full[0].startswith('VERIF_OBJ('):
+                    out_args.append('&(%s)' % full[0][len('VERIF_OBJ('):-1])
+                    full = full[1:]
+                    args = args[1:]
+                else:
+                    out_args.append('self')
             for a, p in zip(full, fi.params):
                 if p.kind in ('ref',):
                     out_args.append('&' + a if re.match(r'^[\w.>\-\[\]]+$', a) and not a.startswith('(*') else '&(%s)' % a)
